@@ -233,6 +233,16 @@ var lifeFuncs = []string{
 	"operatorCache.freeable", "netFD.Close", "UnsafeLinkBuffer.Len", "UnsafeLinkBuffer.recalLen", "server.onAccept",
 }
 
+// functions mirrored by lean/Netpoll/Conn/Read.lean and Flush.lean (C07, C08; their sync lists go to Gen/ReadFlush.lean)
+var readFlushFuncs = []string{
+	"connection.waitRead", "connection.waitReadWithTimeout", "connection.inputAck", "connection.triggerRead",
+	"connection.Flush", "connection.Write", "connection.flush", "connection.waitFlush",
+	"connection.outputs", "connection.outputAck", "connection.rw2r", "connection.triggerWrite",
+	// helpers whose step order the trace drivers rely on
+	"connection.Release", "connection.closeBuffer", "UnsafeLinkBuffer.Skip", "UnsafeLinkBuffer.Flush", "UnsafeLinkBuffer.bookAck",
+	"UnsafeLinkBuffer.Close", "UnsafeLinkBuffer.IsEmpty", "iosend",
+}
+
 func recvName(fd *ast.FuncDecl) string { return syncops.RecvName(fd) }
 
 func exprStr(fset *token.FileSet, e ast.Node) string { return syncops.ExprStr(fset, e) }
@@ -441,6 +451,28 @@ func main() {
 		}
 		lb.WriteString("end Netpoll.Gen.Life\n")
 		if err := os.WriteFile(filepath.Join(*out, "Life.lean"), []byte(lb.String()), 0o644); err != nil {
+			fmt.Fprintln(os.Stderr, err)
+			os.Exit(2)
+		}
+		var rb strings.Builder
+		rb.WriteString("/- GENERATED by /verif/tools/extract from /repo on every check run.  Do not edit.\n   Ordered synchronisation operations (package syncops) of the functions Netpoll.Conn.Read / Netpoll.Conn.Flush mirror;\n   the k-th entry of sync_<f> is the schedule point with site id \"<f>#k\" of tools/instrument. -/\nnamespace Netpoll.Gen.ReadFlush\n\n")
+		for _, n := range readFlushFuncs {
+			f, ok := facts.Funcs[n]
+			fmt.Fprintf(&rb, "def sync_%s : List String := [", leanName(n))
+			if ok {
+				for i, t := range f.Sync {
+					if i > 0 {
+						rb.WriteString(",")
+					}
+					fmt.Fprintf(&rb, "\n  %s", leanStr(t))
+				}
+			} else {
+				rb.WriteString("\"<function not found>\"")
+			}
+			rb.WriteString("]\n\n")
+		}
+		rb.WriteString("end Netpoll.Gen.ReadFlush\n")
+		if err := os.WriteFile(filepath.Join(*out, "ReadFlush.lean"), []byte(rb.String()), 0o644); err != nil {
 			fmt.Fprintln(os.Stderr, err)
 			os.Exit(2)
 		}
